@@ -204,6 +204,10 @@ class Sched:
 
     # ---- life cycle
     def begin(self):
+        import logging as _lg
+
+        self.saved_handlers = _lg.getLogger().handlers[:]
+        self.saved_level = _lg.getLogger().level
         fake = self
 
         class FakeMP:
@@ -248,6 +252,12 @@ class Sched:
 
     def finish(self):
         self.teardown = True
+        import logging as _lg
+
+        for h in _lg.getLogger().handlers[:]:      # handlers the command's own set-up added (one per run; --debug runs too)
+            if h not in getattr(self, "saved_handlers", []):
+                _lg.getLogger().removeHandler(h)
+        _lg.getLogger().setLevel(getattr(self, "saved_level", _lg.WARNING))
         RL.mp = self.saved_mp
         sys.stdout = self.saved_stdout
         for p in self.procs + self.created:
